@@ -388,6 +388,10 @@ pub fn run_c16() -> Report {
             spec.threads = [2u32, 3, 4, 1, 16][_i % 5];
             // how the directory is named is no input of what is printed: every third case through a path of more than 600
             // bytes (the log lines that mention it get long), one in three through names with spaces and non-ASCII characters
+            // who reads stdout is no input either: every other case prints to a terminal instead of a pipe
+            if _i % 2 == 0 {
+                spec.env.push(("VERIF_STDOUT_TTY".into(), "1".into()));
+            }
             match _i % 3 {
                 1 => spec.env.push(("VERIF_PATH_FORM".into(), "11".into())),
                 2 => spec.env.push(("VERIF_PATH_FORM".into(), "9".into())),
